@@ -245,6 +245,13 @@ func packageRange(c *Ctx) {
 	okc := P.Before(it.fn, an.Is(fnCall), commit)
 	it.add("PATH", "Commit happens only after the callback returned", okc,
 		pickS(okc, "Commit is dominated by the callback call", "Commit is reachable without the callback having returned: a value could be committed before it was processed"), commit)
+	{
+		// ... and always then: once the callback has returned normally nothing but Commit's own failure keeps the value
+		// uncommitted (an exit between the two would roll back a value that was already processed)
+		skip := P.PathExists(it.fn, fnCall, an.IsReturn, an.Is(commit), nil)
+		it.add("PATH", "a value whose callback returned is committed", !skip,
+			pickS(!skip, "every path from the callback's return to an exit of the iteration passes Commit", "the iteration can end between the callback's return and Commit (e.g. on a context check): a value that was processed is rolled back and handed out again"), fnCall)
+	}
 	// PROV: the value handed to the callback is Get's value
 	{
 		a := callArg(fnCall, 1)
